@@ -619,6 +619,7 @@ impl Cfg {
     pub fn setup_value(&self, seed: &[(Vec<u8>, Vec<u8>)]) -> Value {
         let mk = |m: crate::chain::Marker| match m {
             crate::chain::Marker::Restricted => "restricted",
+            crate::chain::Marker::RestrictedAttrs => "restricted-with-required-attributes",
             crate::chain::Marker::Coin => "coin",
             crate::chain::Marker::None => "none",
         };
@@ -650,6 +651,7 @@ impl Cfg {
                 k.clone(),
                 match x.as_str()? {
                     "restricted" => crate::chain::Marker::Restricted,
+                    "restricted-with-required-attributes" => crate::chain::Marker::RestrictedAttrs,
                     "coin" => crate::chain::Marker::Coin,
                     _ => crate::chain::Marker::None,
                 },
